@@ -38,7 +38,7 @@ P = {
  "C15": (True, "exhaustive enumeration of KSF instance pairs with fault injection at the n-th KSF call (harness-defined Ksf)",
          "All (registration instance, login instance) pairs over {absent, explicit default, id1, id2} x 2 passwords on 20 suites with a logging KSF, failure at call 1 and 2 of each finish step; Argon2 parameter pairs on 3 suites; oracle: one call, on the OPRF output, with the passed instance; success iff equal.", "3/C15"),
  "C16": (True, "explicit-state BFS over registration/login histories (own explorer, stateright cross-count)",
-         "All histories of Register(user, password, server), Register-on-a-failing-generator and Login(user, server, context) within the operation bounds; invariant on every transition: export key stable per record, pairwise distinct across registrations, no secret verbatim in any message or file.", "3/C16"),
+         "All histories of Register(user, password, server), Register-on-a-failing-generator and Login(user, server, context) within the operation bounds; invariant on every transition: export key stable per record, pairwise distinct across registrations, no secret verbatim in any message or file. Plus the complete same-tape grid (7 users incl. two 1000-byte identifiers differing in the last byte x 2 passwords x 2 servers from one tape position): export keys pairwise distinct, login returns the record's key.", "3/C16"),
  "C17": (True, "exhaustive enumeration of tape fork points per randomness-consuming operation (controlled RNG = the only nondeterminism)",
          "Each of 8 operations is re-executed on tapes forked at every draw boundary (thorough: every byte offset), at 0 and beyond the consumption end, and on generators that fail at every draw position; a single-threaded prelude runs every operation twice back to back and a menu of calls with different inputs (incl. near-miss seeds) in three orders; every sequence of <=3 operations runs on one long-lived in-memory ServerSetup. Demanded: determinism, no hidden state (order independence, long-lived object = fresh object), no dependence on unread tape, every random field varies with the tape (also when the generator fails), no coincidences.", "3/C17"),
  "C18": (True, "exhaustive fault enumeration over the external-key interface (fail at the n-th call for every n) with a differential oracle",
